@@ -84,16 +84,20 @@ FAMILIES = {
     "rep-designators": lambda k: "struct S s = {" + ",".join(".m%d = %d" % (i, i) for i in range(k)) + "};",
     "rep-static-assert": lambda k: "_Static_assert(1, \"a\");" * k,
     "rep-compound-literal": lambda k: "void f(void) {" + "g((struct P){1, 2});" * k + "}",
+    # derivations of ONE declarator (not nested in the recursion sense: sizes as for repetition)
+    "rep-array-suffix": lambda k: "int a" + "[1]" * k + ";",
+    "nest-abstract-fn-param": lambda k: "void f(int " + "(int " * k + ")" * k + ");",
     "rep-sizeof-complit": lambda k: "void f(void) {" + "n += sizeof (int[2]){1, 2};" * k + "}",
 }
 NESTING = {n for n in FAMILIES if n.startswith("nest-")}
 
 
 class Counter:
-    """deterministic step count: Python call events inside pycparser modules + token-stream calls"""
+    """deterministic amount of work: source lines executed inside pycparser modules (so that loops
+    inside one function count, not only calls) + token-stream and lexer calls"""
 
     def __init__(self):
-        self.calls = 0
+        self.calls = 0      # executed lines
         self.ts = 0
         self.lex = 0
 
@@ -103,22 +107,28 @@ class Counter:
         self.calls = self.ts = self.lex = 0
         p = CParser()
 
-        def prof(frame, event, arg):
-            if event == "call":
-                fn = frame.f_code.co_filename
-                if "pycparser" in fn:
-                    self.calls += 1
-                    nm = frame.f_code.co_name
-                    if fn.endswith("c_parser.py") and nm in ("peek", "next", "reset") and "self" in frame.f_locals and isinstance(frame.f_locals["self"], _TokenStream):
-                        self.ts += 1
-                    elif fn.endswith("c_lexer.py") and nm == "token":
-                        self.lex += 1
+        def local(frame, event, arg):
+            if event == "line":
+                self.calls += 1
+            return local
 
-        sys.setprofile(prof)
+        def glob(frame, event, arg):
+            fn = frame.f_code.co_filename
+            if "pycparser" not in fn:
+                return None
+            self.calls += 1
+            nm = frame.f_code.co_name
+            if fn.endswith("c_parser.py") and nm in ("peek", "next", "reset") and "self" in frame.f_locals and isinstance(frame.f_locals["self"], _TokenStream):
+                self.ts += 1
+            elif fn.endswith("c_lexer.py") and nm == "token":
+                self.lex += 1
+            return local
+
+        sys.settrace(glob)
         try:
             r = py_parse_obj(text, "f.c", parser=p)
         finally:
-            sys.setprofile(None)
+            sys.settrace(None)
         return r[0], self.calls, self.ts, self.lex
 
 
@@ -145,7 +155,7 @@ def measure(args):
     try:
         st, calls, ts, lex = c.run(text)
     except _Timeout:
-        sys.setprofile(None)
+        sys.settrace(None)
         st, calls, ts, lex = "TIMEOUT", c.calls, c.ts, c.lex
     finally:
         signal.setitimer(signal.ITIMER_REAL, 0)
@@ -156,6 +166,22 @@ def measure(args):
 def too_fast(a, b):
     """work of instance b vs the smaller instance a of the same family grows faster than ~linearly"""
     return b[4] / max(1, a[4]) > (b[2] / max(1, a[2])) * 1.35 + 0.2
+
+
+CHAIN_FAMILIES = {"rep-array-suffix", "nest-arrdecl", "nest-fndecl", "nest-abstract-declarator", "nest-cast-in-bound", "nest-fnptr-param"}
+
+
+def classify_growth(replay):
+    """the two open findings are quadratic: anything growing faster than size^2 is a new violation"""
+    if replay.get("kind") != "family" or "ratio_size" not in replay:
+        return None
+    if replay["ratio_work"] > replay["ratio_size"] ** 2 * 1.15:
+        return None
+    if replay["family"] == "nest-abstract-fn-param":
+        return "F-c16-nested-abstract-params-quadratic"
+    if replay["family"] in CHAIN_FAMILIES:
+        return "F-c16-declarator-chain-quadratic"
+    return None
 
 
 def measure_family(args):
@@ -246,7 +272,7 @@ def run(ctx):
         if st == "FUEL":
             continue
         if st == "TIMEOUT":
-            ctx.violation("family %s size %d (%d characters) did not finish within %d s (%d Python calls so far)" % (name, k, size, BUDGET_S, calls),
+            ctx.violation("family %s size %d (%d characters) did not finish within %d s (%d lines executed so far)" % (name, k, size, BUDGET_S, calls),
                           {"kind": "family", "family": name, "k": k})
             continue
         if st != "OK":
@@ -265,8 +291,8 @@ def run(ctx):
             ratio_calls = b[4] / max(1, a[4])
             # doubling the size may at most roughly double the work (a logarithmic factor is allowed)
             if too_fast(a, b):
-                ctx.violation("work grows faster than linearly on family %s: size x%.2f (k=%d->%d) but Python calls x%.2f (%d -> %d)" % (name, ratio_size, a[1], b[1], ratio_calls, a[4], b[4]),
-                              {"kind": "family", "family": name, "k": b[1]})
+                ctx.violation("work grows faster than linearly on family %s: size x%.2f (k=%d->%d) but executed lines x%.2f (%d -> %d)" % (name, ratio_size, a[1], b[1], ratio_calls, a[4], b[4]),
+                              {"kind": "family", "family": name, "k": b[1], "ratio_size": ratio_size, "ratio_work": ratio_calls}, classify_growth)
         if rows and rows[-1][7] > 5.0:
             ctx.violation("family %s size %d (%d characters) took %.1f s" % (name, rows[-1][1], rows[-1][2], rows[-1][7]), {"kind": "family", "family": name, "k": rows[-1][1]})
     # tick equality on every program of the pool: any construct whose token-stream traffic differs from
@@ -295,7 +321,7 @@ def run(ctx):
         if wall > limit:
             ctx.violation("lexer took %.1f s on %d characters of family %s" % (wall, size, name), {"kind": "regex-family", "family": name, "n": n})
     ctx.extra["regex_families_max_wall_s"] = round(max(w for _, _, _, w in lres), 3)
-    ctx.rule("%d scalable families (k-fold repetition of every declaration/statement kind; depth-k nesting of parentheses, casts, sizeof, calls, subscripts, initializer braces, blocks, if/else and ?: chains, pointer/array/function declarators, structs, compound literals, type names and compound literals inside array bounds, every 'type name or expression?' decision nested inside itself: sizeof / _Alignof / cast / _Alignas / offsetof / _Atomic( / _Static_assert / compound literal with and without postfix, function-pointer parameters, designators; loops, switch/case, labels) at 3-5 sizes: deterministic step count (Python call events in pycparser via sys.setprofile) must grow at most ~linearly between consecutive sizes, token-stream and lexer call counts must equal the Lean model's tick counters exactly, on the families and on every program of the pool; %d adversarial literal families for the lexer regexes with wall-time margins" % (len(FAMILIES), len(REGEX_FAMILIES)))
+    ctx.rule("%d scalable families (k-fold repetition of every declaration/statement kind; depth-k nesting of parentheses, casts, sizeof, calls, subscripts, initializer braces, blocks, if/else and ?: chains, pointer/array/function declarators, structs, compound literals, type names and compound literals inside array bounds, every 'type name or expression?' decision nested inside itself: sizeof / _Alignof / cast / _Alignas / offsetof / _Atomic( / _Static_assert / compound literal with and without postfix, function-pointer parameters, designators; loops, switch/case, labels) at 3-5 sizes: deterministic amount of work (source lines executed inside pycparser, via sys.settrace - loops inside a function count) must grow at most ~linearly between consecutive sizes, token-stream and lexer call counts must equal the Lean model's tick counters exactly, on the families and on every program of the pool; %d adversarial literal families for the lexer regexes with wall-time margins" % (len(FAMILIES), len(REGEX_FAMILIES)))
     ctx.count(n_eval, nontrivial_n=n_eval)
     ctx.sample({"kind": "family", "name": "nest-complit-in-bound", "k": 3, "text": FAMILIES["nest-complit-in-bound"](3)})
 
@@ -319,6 +345,10 @@ def replay(ctx, payload):
 
 def replay_finding(ctx, f):
     w = f["witness"]
+    if w["kind"] == "line_growth":
+        a = measure((w["family"], w["sizes"][0]))
+        b = measure((w["family"], w["sizes"][1]))
+        return a[3] == "OK" and b[3] == "OK" and too_fast(a, b)
     if w["kind"] == "cost_doubling":
         a = measure(("nest-complit-in-bound", w["depths"][0]))
         b = measure(("nest-complit-in-bound", w["depths"][1]))
